@@ -3,7 +3,7 @@ constant tables of gen_tables.py).  Python AST in, Coq text out; fail-closed: an
 FunError, which the check reports as a broken tie.
 
 Fragment: a function whose body is a docstring followed by  name = expr  statements,  if test: return expr  statements
-(no else) and a final  return expr.  Expressions: names, integer literals, + - * // % ** >> << & |, ==, !=, `and`, slicing
+(no else) and a final  return expr (methods of the cursor class: see TrM).  Expressions: names, integer literals, + - * // % ** >> << & |, ==, !=, `and`, slicing
 x[a:b], len(x), int.from_bytes(x, byteorder="big").  Evaluation order is Python's (left to right), every operation is the
 checked operation of Base/PyEval.v, so the exceptions are those Python raises."""
 import ast
@@ -76,6 +76,243 @@ class Tr:
         raise FunError(f"statement outside the translated fragment: {ast.dump(s)[:120]}")
 
 
+CMPS = {ast.Eq: "py_eq", ast.NotEq: "py_ne", ast.Lt: "py_lt", ast.Gt: "py_gt"}
+RAISES = {"ValueError": "EValue", "TypeError": "EType", "IndexError": "EIndex", "KeyError": "EKey", "OverflowError": "EOverflow"}
+
+
+class TrM(Tr):
+    """methods of a bytes subclass carrying a bit cursor (RawPacketData): `self` is the buffer, `self.pos` the cursor, threaded
+    through as the variable pos; the function returns (value, new cursor).  On top of Tr: self.pos, self.pos += e,
+    if test: raise E(...), if-bodies of several statements ending in return, <, >, calls of already translated module
+    functions, int.to_bytes(x, n, "big")."""
+
+    def __init__(self, callees):
+        super().__init__()
+        self.callees = callees
+
+    def expr(self, e, k):
+        if isinstance(e, ast.Attribute) and isinstance(e.value, ast.Name) and e.value.id == "self" and e.attr == "pos":
+            return k("pos")
+        if isinstance(e, ast.Attribute):
+            raise FunError(f"attribute outside the translated fragment: {ast.dump(e)[:80]}")
+        if isinstance(e, ast.Compare) and len(e.ops) == 1 and type(e.ops[0]) in CMPS:
+            v = self.fresh()
+            return self.expr(e.left, lambda a: self.expr(e.comparators[0], lambda b: f"{v} <- {CMPS[type(e.ops[0])]} {a} {b} ;; {k(v)}"))
+        if isinstance(e, ast.Call) and isinstance(e.func, ast.Name) and e.func.id in self.callees and not e.keywords:
+            v = self.fresh()
+
+            def args(i, acc):
+                if i == len(e.args):
+                    return f"{v} <- {self.callees[e.func.id]} {' '.join(acc)} ;; {k(v)}"
+                return self.expr(e.args[i], lambda a: args(i + 1, acc + [a]))
+            return args(0, [])
+        if (isinstance(e, ast.Call) and isinstance(e.func, ast.Attribute) and e.func.attr == "to_bytes" and isinstance(e.func.value, ast.Name)
+                and e.func.value.id == "int" and len(e.args) == 3 and not e.keywords and isinstance(e.args[2], ast.Constant)
+                and e.args[2].value == "big"):
+            v = self.fresh()
+            return self.expr(e.args[0], lambda x: self.expr(e.args[1], lambda n: f"{v} <- py_to_bytes_big {x} {n} ;; {k(v)}"))
+        return super().expr(e, k)
+
+    def body(self, stmts):
+        if not stmts:
+            raise FunError("method body ends without a return")
+        s, rest = stmts[0], stmts[1:]
+        if isinstance(s, ast.Expr) and isinstance(s.value, ast.Constant) and isinstance(s.value.value, str):
+            return self.body(rest)
+        if isinstance(s, ast.Assign) and len(s.targets) == 1 and isinstance(s.targets[0], ast.Name):
+            name = s.targets[0].id
+            if name in ("pos", "self"):
+                raise FunError("a local named pos/self would capture the cursor")
+            return self.expr(s.value, lambda v: f"let {name} := {v} in\n  {self.body(rest)}")
+        if (isinstance(s, ast.AugAssign) and isinstance(s.op, ast.Add) and isinstance(s.target, ast.Attribute)
+                and isinstance(s.target.value, ast.Name) and s.target.value.id == "self" and s.target.attr == "pos"):
+            return self.expr(s.value, lambda v: f"pos <- py_add pos {v} ;;\n  {self.body(rest)}")
+        if (isinstance(s, ast.If) and not s.orelse and len(s.body) == 1 and isinstance(s.body[0], ast.Raise) and s.body[0].cause is None
+                and isinstance(s.body[0].exc, ast.Call) and isinstance(s.body[0].exc.func, ast.Name) and s.body[0].exc.func.id in RAISES):
+            # the message (an f-string over the arguments) is not evaluated for effects: only names and constants may occur in it
+            for n in ast.walk(s.body[0].exc):
+                if isinstance(n, (ast.Call, ast.Attribute, ast.Subscript)) and n is not s.body[0].exc:
+                    raise FunError("exception message with a call/attribute/subscript")
+            return self.expr(s.test, lambda t: f"if truthy {t} then Err {RAISES[s.body[0].exc.func.id]}\n  else {self.body(rest)}")
+        if isinstance(s, ast.If) and not s.orelse and s.body and isinstance(s.body[-1], ast.Return):
+            return self.expr(s.test, lambda t: f"if truthy {t} then ({self.body(s.body)})\n  else {self.body(rest)}")
+        if isinstance(s, ast.Return) and s.value is not None and not rest:
+            return self.expr(s.value, lambda v: f"Ok ({v}, pos)")
+        raise FunError(f"statement outside the translated fragment: {ast.dump(s)[:120]}")
+
+
+def translate_method(path, cname, fname, coq_name, callees):
+    mod = ast.parse((core.REPO / path).read_text())
+    classes = [n for n in mod.body if isinstance(n, ast.ClassDef) and n.name == cname]
+    if len(classes) != 1:
+        raise FunError(f"class {cname} not found exactly once in {path}")
+    fns = [n for n in classes[0].body if isinstance(n, ast.FunctionDef) and n.name == fname]
+    if len(fns) != 1:
+        raise FunError(f"method {cname}.{fname} not found exactly once")
+    fn = fns[0]
+    if fn.decorator_list:
+        raise FunError("decorated methods are not translated")
+    a = fn.args
+    if a.vararg or a.kwarg or a.kwonlyargs or a.defaults or a.posonlyargs or not a.args or a.args[0].arg != "self":
+        raise FunError("only plain positional parameters after self are translated")
+    params = [x.arg for x in a.args[1:]]
+    if "pos" in params:
+        raise FunError("a parameter named pos would capture the cursor")
+    text = TrM(callees).body(fn.body)
+    args = " ".join(f"({p} : pv)" for p in ["self", "pos"] + params)
+    return f"Definition {coq_name} {args} : res (pv * pv) :=\n  {text}.\n"
+
+
+class TrP(Tr):
+    """read-only (cached) properties of the bytes subclass: `self` is the buffer; on top of Tr: calls of already translated module
+    functions, self.<already translated property>, <Class>.<integer class constant>, and a tuple as the returned value"""
+
+    def __init__(self, callees, props, consts):
+        super().__init__()
+        self.callees, self.props, self.consts = callees, props, consts
+
+    def expr(self, e, k):
+        if isinstance(e, ast.Attribute) and isinstance(e.value, ast.Name) and e.value.id == "self" and e.attr in self.props:
+            v = self.fresh()
+            return f"{v} <- {self.props[e.attr]} self ;; {k(v)}"
+        if isinstance(e, ast.Attribute) and isinstance(e.value, ast.Name) and (e.value.id, e.attr) in self.consts:
+            v = self.fresh()
+            return f"let {v} := VInt ({self.consts[(e.value.id, e.attr)]}) in {k(v)}"
+        if isinstance(e, ast.Attribute):
+            raise FunError(f"attribute outside the translated fragment: {ast.dump(e)[:80]}")
+        if isinstance(e, ast.Call) and isinstance(e.func, ast.Name) and e.func.id in self.callees and not e.keywords:
+            v = self.fresh()
+
+            def args(i, acc):
+                if i == len(e.args):
+                    return f"{v} <- {self.callees[e.func.id]} {' '.join(acc)} ;; {k(v)}"
+                return self.expr(e.args[i], lambda a: args(i + 1, acc + [a]))
+            return args(0, [])
+        return super().expr(e, k)
+
+
+def translate_property(path, cname, fname, coq_name, callees, props):
+    mod = ast.parse((core.REPO / path).read_text())
+    classes = [n for n in mod.body if isinstance(n, ast.ClassDef) and n.name == cname]
+    if len(classes) != 1:
+        raise FunError(f"class {cname} not found exactly once in {path}")
+    consts = {}
+    for n in classes[0].body:
+        if (isinstance(n, ast.Assign) and len(n.targets) == 1 and isinstance(n.targets[0], ast.Name) and isinstance(n.value, ast.Constant)
+                and isinstance(n.value.value, int) and not isinstance(n.value.value, bool)):
+            consts[(cname, n.targets[0].id)] = n.value.value
+    fns = [n for n in classes[0].body if isinstance(n, ast.FunctionDef) and n.name == fname]
+    if len(fns) != 1:
+        raise FunError(f"property {cname}.{fname} not found exactly once")
+    fn = fns[0]
+    if [ast.dump(d) for d in fn.decorator_list] not in ([ast.dump(ast.Name("cached_property", ast.Load()))], [ast.dump(ast.Name("property", ast.Load()))]):
+        raise FunError("expected exactly the decorator @cached_property or @property")
+    a = fn.args
+    if a.vararg or a.kwarg or a.kwonlyargs or a.defaults or a.posonlyargs or [x.arg for x in a.args] != ["self"]:
+        raise FunError("a property takes self only")
+    body = [s_ for s_ in fn.body if not (isinstance(s_, ast.Expr) and isinstance(s_.value, ast.Constant) and isinstance(s_.value.value, str))]
+    if len(body) != 1 or not isinstance(body[0], ast.Return) or body[0].value is None:
+        raise FunError("a property body is a single return")
+    tr = TrP(callees, props, consts)
+    val = body[0].value
+    if isinstance(val, ast.Tuple):
+        def elts(i, acc):
+            if i == len(val.elts):
+                return "Ok [" + "; ".join(acc) + "]"
+            return tr.expr(val.elts[i], lambda x: elts(i + 1, acc + [x]))
+        return f"Definition {coq_name} (self : pv) : res (list pv) :=\n  {elts(0, [])}.\n"
+    return f"Definition {coq_name} (self : pv) : res pv :=\n  {tr.expr(val, lambda v: f'Ok {v}')}.\n"
+
+
+class TrO(Tr):
+    """a decoding method of an encoding object: _get_raw_value(self, packet).  The object's integer attributes named in `fields`
+    become parameters, a test  self.<attr> == '<literal>'  listed in `tests` becomes a boolean parameter, the packet's buffer and
+    cursor are the parameters data / pos (threaded through packet.raw_data.read_as_int / read_as_bytes, already translated), and
+    the method returns (value, new cursor).  On top of Tr:  if test: name = expr  (conditional rebinding),
+    x.to_bytes(length=n, byteorder="little"), self.<method>(...) for already translated static methods."""
+
+    def __init__(self, fields, tests, reads, methods):
+        super().__init__()
+        self.fields, self.tests, self.reads, self.methods = fields, tests, reads, methods
+
+    def expr(self, e, k):
+        if (isinstance(e, ast.Compare) and len(e.ops) == 1 and isinstance(e.ops[0], ast.Eq) and isinstance(e.left, ast.Attribute)
+                and isinstance(e.left.value, ast.Name) and e.left.value.id == "self" and isinstance(e.comparators[0], ast.Constant)
+                and isinstance(e.comparators[0].value, str)):
+            key = (e.left.attr, e.comparators[0].value)
+            if key not in self.tests:
+                raise FunError(f"string test {key} is not among the declared ones")
+            return k(self.tests[key])
+        if isinstance(e, ast.Attribute) and isinstance(e.value, ast.Name) and e.value.id == "self" and e.attr in self.fields:
+            return k(self.fields[e.attr])
+        if (isinstance(e, ast.Call) and isinstance(e.func, ast.Attribute) and e.func.attr in self.reads and isinstance(e.func.value, ast.Attribute)
+                and e.func.value.attr == "raw_data" and isinstance(e.func.value.value, ast.Name) and e.func.value.value.id == "packet"
+                and len(e.args) == 1 and not e.keywords):
+            v = self.fresh()
+            return self.expr(e.args[0], lambda n: f"'({v}, pos) <- {self.reads[e.func.attr]} data pos {n} ;; {k(v)}")
+        if (isinstance(e, ast.Call) and isinstance(e.func, ast.Attribute) and e.func.attr in self.methods and isinstance(e.func.value, ast.Name)
+                and e.func.value.id == "self" and not e.keywords):
+            v = self.fresh()
+
+            def args(i, acc):
+                if i == len(e.args):
+                    return f"{v} <- {self.methods[e.func.attr]} {' '.join(acc)} ;; {k(v)}"
+                return self.expr(e.args[i], lambda a: args(i + 1, acc + [a]))
+            return args(0, [])
+        if (isinstance(e, ast.Call) and isinstance(e.func, ast.Attribute) and e.func.attr == "to_bytes" and isinstance(e.func.value, ast.Name)
+                and e.func.value.id not in ("int", "self", "packet") and not e.args and sorted(kw.arg for kw in e.keywords) == ["byteorder", "length"]):
+            kws = {kw.arg: kw.value for kw in e.keywords}
+            if not (isinstance(kws["byteorder"], ast.Constant) and kws["byteorder"].value == "little"):
+                raise FunError("to_bytes is translated for byteorder=\"little\" only")
+            v = self.fresh()
+            return self.expr(e.func.value, lambda x: self.expr(kws["length"], lambda n: f"{v} <- py_to_bytes_little {x} {n} ;; {k(v)}"))
+        if isinstance(e, ast.Attribute):
+            raise FunError(f"attribute outside the translated fragment: {ast.dump(e)[:80]}")
+        return super().expr(e, k)
+
+    def body(self, stmts):
+        if not stmts:
+            raise FunError("method body ends without a return")
+        s, rest = stmts[0], stmts[1:]
+        if isinstance(s, ast.Expr) and isinstance(s.value, ast.Constant) and isinstance(s.value.value, str):
+            return self.body(rest)
+        reserved = set(self.fields.values()) | set(self.tests.values()) | {"data", "pos", "self", "packet"}
+        if isinstance(s, ast.Assign) and len(s.targets) == 1 and isinstance(s.targets[0], ast.Name):
+            if s.targets[0].id in reserved:
+                raise FunError("a local would capture a parameter")
+            return self.expr(s.value, lambda v: f"let {s.targets[0].id} := {v} in\n  {self.body(rest)}")
+        if (isinstance(s, ast.If) and not s.orelse and len(s.body) == 1 and isinstance(s.body[0], ast.Assign) and len(s.body[0].targets) == 1
+                and isinstance(s.body[0].targets[0], ast.Name) and s.body[0].targets[0].id not in reserved):
+            name = s.body[0].targets[0].id
+            for n in ast.walk(s.body[0].value):      # the cursor must not move inside a branch (it is threaded outside only)
+                if isinstance(n, ast.Attribute) and n.attr == "raw_data":
+                    raise FunError("packet read inside a conditional assignment")
+            return self.expr(s.test, lambda t: f"{name} <- (if truthy {t} then ({self.expr(s.body[0].value, lambda v: f'Ok {v}')}) else Ok {name}) ;;\n  {self.body(rest)}")
+        if isinstance(s, ast.If) and not s.orelse and len(s.body) == 1 and isinstance(s.body[0], ast.Return) and s.body[0].value is not None:
+            return self.expr(s.test, lambda t: f"if truthy {t} then ({self.expr(s.body[0].value, lambda v: f'Ok ({v}, pos)')})\n  else {self.body(rest)}")
+        if isinstance(s, ast.Return) and s.value is not None and not rest:
+            return self.expr(s.value, lambda v: f"Ok ({v}, pos)")
+        raise FunError(f"statement outside the translated fragment: {ast.dump(s)[:120]}")
+
+
+def translate_obj_method(path, cname, fname, coq_name, fields, tests, reads, methods):
+    mod = ast.parse((core.REPO / path).read_text())
+    classes = [n for n in mod.body if isinstance(n, ast.ClassDef) and n.name == cname]
+    if len(classes) != 1:
+        raise FunError(f"class {cname} not found exactly once in {path}")
+    fns = [n for n in classes[0].body if isinstance(n, ast.FunctionDef) and n.name == fname]
+    if len(fns) != 1:
+        raise FunError(f"method {cname}.{fname} not found exactly once")
+    fn = fns[0]
+    a = fn.args
+    if fn.decorator_list or a.vararg or a.kwarg or a.kwonlyargs or a.defaults or a.posonlyargs or [x.arg for x in a.args] != ["self", "packet"]:
+        raise FunError("expected an undecorated method (self, packet)")
+    text = TrO(fields, tests, reads, methods).body(fn.body)
+    params = ["data", "pos"] + list(fields.values()) + list(tests.values())
+    args = " ".join(f"({p} : pv)" for p in params)
+    return f"Definition {coq_name} {args} : res (pv * pv) :=\n  {text}.\n"
+
+
 def translate(path, fname, coq_name):
     mod = ast.parse((core.REPO / path).read_text())
     fns = [n for n in ast.walk(mod) if isinstance(n, ast.FunctionDef) and n.name == fname]        # functions and (static) methods
@@ -113,13 +350,16 @@ HEADER = ("(* GENERATED by harness/gen_fun.py from /repo's current source on eve
           "From Coq Require Import ZArith List Bool.\nFrom SPP Require Import Base.Bytes Base.Sx Base.PyEval.\nImport ListNotations.\nOpen Scope Z_scope.\n\n")
 
 
-def check(tag, items, ok_file):
+def check(tag, items, ok_file, imports=""):
     """items: [(path, python name, coq name)].  Regenerates Gen/Fun_<tag>.v and compiles Gen/<ok_file>.v (the committed proofs that
     the generated functions equal the hand-written model) against it.  Returns (ok, message)."""
     gen = core.COQ / "Gen"
     gen.mkdir(exist_ok=True)
     try:
-        txt = HEADER + "\n".join((translate_assigned_expr(*it[1:]) if it[0] == "expr" else translate(*it)) for it in items)
+        txt = HEADER + imports + "\n".join((translate_assigned_expr(*it[1:]) if it[0] == "expr" else translate_method(*it[1:]) if it[0] == "method"
+                                  else translate_property(*it[1:]) if it[0] == "property"
+                                  else translate_obj_method(*it[1:]) if it[0] == "objmethod"
+                                  else translate(*it)) for it in items)
     except FunError as e:
         return False, f"translation failed (source outside the translated fragment): {e}"
     except Exception as e:  # noqa: BLE001
